@@ -96,6 +96,35 @@ def one_case(ctx: Ctx, stream: str, i: int) -> None:
     st, am = safe(lambda: np.asarray(op.as_matrix(), dtype=np.float64))
     if st == 'ok' and not gen.close(am, want):
         ctx.fail(stream, i, f'block-as_matrix:{kind}', 'as_matrix() differs from the stacked matrix', cfg)
+    # the caller's data: the operator applied to NumPy arrays (as a user who has not moved the data to JAX would do), the
+    # SAME array object in every slot, twice in a row — the result is the matrix times the input both times and the
+    # caller's arrays are left as they were
+    rng_np = ctx.rng(stream + ':numpy', i)
+    leaves_in = jax.tree.leaves(op.in_structure())
+    if all(np.dtype(l.dtype) == np.float32 for l in leaves_in):
+        shared = {}
+        vals = []
+        for l in leaves_in:
+            key = tuple(l.shape)
+            if key not in shared:
+                shared[key] = np.array([rng_np.randint(-3, 4) for _ in range(int(np.prod(l.shape)))], dtype=np.float32).reshape(l.shape)
+            vals.append(shared[key])
+        before = [v.copy() for v in vals]
+        xin = jax.tree.unflatten(jax.tree.structure(op.in_structure()), vals)
+        flat_x = np.concatenate([b.ravel() for b in before]) if before else np.zeros(0)
+        for rep_ in range(2):
+            stn, yn = safe(op.mv, xin)
+            if stn != 'ok':
+                ctx.fail(stream, i, f'block-mv-raises-on-numpy-input:{kind}:{stn}', str(yn)[:120], cfg)
+                break
+            if not gen.close(gen.flatten_value(yn), want @ flat_x):
+                ctx.fail(stream, i, f'block-numpy-input:{kind}:application-{rep_ + 1}', f'{kind} operator applied to NumPy arrays '
+                         f'(application {rep_ + 1}) is not the stacked matrix times the input', cfg)
+                break
+            if any(not np.array_equal(a, b) for a, b in zip(vals, before)):
+                ctx.fail(stream, i, f'block-modifies-caller-input:{kind}', f'applying the {kind} operator wrote into the NumPy arrays it was given', cfg)
+                break
+        ctx.count('numpy-input')
 
     # ---- structures ---------------------------------------------------------------------------------------
     rep = ctx.model.ask(['structs', esx])
